@@ -586,7 +586,15 @@ func (g *tailGen) wrap(e MalType, depth int) MalType {
 	case 0:
 		return ls(sy("do"), call1("+", 1, 1), inner)
 	case 1:
-		return ls(sy("let"), vc(sy("t"), 1), inner)
+		// let bodies with one, two or three forms: the LAST one is the tail position
+		switch g.r.intn(3) {
+		case 0:
+			return ls(sy("let"), vc(sy("t"), 1), inner)
+		case 1:
+			return ls(sy("let"), vc(sy("t"), 1), call1("+", sy("t"), 1), inner)
+		default:
+			return ls(sy("let"), vc(sy("t"), 1, sy("u"), 2), call1("+", sy("t"), 1), call1("list", sy("u")), inner)
+		}
 	case 2:
 		return ls(sy("if"), true, inner, 0)
 	case 3:
@@ -598,6 +606,12 @@ func (g *tailGen) wrap(e MalType, depth int) MalType {
 	case 6:
 		return ls(sy("or"), false, inner)
 	case 7:
+		if g.r.chance(1, 2) {
+			return ls(ls(sy("fn"), vc(), call1("+", 1, 1), inner)) // multi-form fn body: last form is the tail
+		}
+		if g.r.chance(1, 2) {
+			return ls(ls(sy("fn"), vc(sy("&"), sy("more")), inner), 1, 2) // rest-parameter closure
+		}
 		return ls(ls(sy("fn"), vc(), inner)) // closure application in tail position
 	default:
 		return ls(sy("quasiquote"), call1("unquote", inner))
